@@ -237,6 +237,61 @@ func init() {
 		c.set(opaqueStr(tIte(cond, rest, a.term())))
 		return nil, false
 	}
+	I["strings.TrimRight"] = func(c *icall) ([]*State, bool) {
+		a, cut := c.str(0), c.str(1)
+		if a.K == SLit && cut.K == SLit {
+			c.set(litStr(strings.TrimRight(a.S, cut.S)))
+			return nil, false
+		}
+		if cut.K != SLit {
+			panic(engineErr("strings.TrimRight with a symbolic cutset"))
+		}
+		// a concatenation: literal pieces at the end are trimmed; base64 text that remains at the
+		// end stays as it is when the cutset holds none of its alphabet (padding, white space)
+		if a.K == SOpaque {
+			leaves := flattenConcat(a.T)
+			hi := len(leaves)
+			var last *StrV
+			for hi > 0 {
+				lv := opaqueStr(leaves[hi-1])
+				if lv.K != SLit {
+					break
+				}
+				t := strings.TrimRight(lv.S, cut.S)
+				if t == "" {
+					hi--
+					continue
+				}
+				tl := litStr(t)
+				last = &tl
+				break
+			}
+			outside := !strings.ContainsAny(cut.S, "ABCDEFGHIJKLMNOPQRSTUVWXYZabcdefghijklmnopqrstuvwxyz0123456789-_+/")
+			endOK := last != nil
+			if !endOK && hi > 0 {
+				_, isB64 := c.s.B64[leaves[hi-1]]
+				endOK = isB64 && outside
+			}
+			if hi == 0 {
+				c.set(litStr(""))
+				return nil, false
+			}
+			if endOK {
+				out := litStr("")
+				for i := 0; i < hi; i++ {
+					lv := opaqueStr(leaves[i])
+					if i == hi-1 && last != nil {
+						lv = *last
+					}
+					out = strConcat(out, lv)
+				}
+				c.set(out)
+				return nil, false
+			}
+		}
+		c.set(opaqueStr(c.w.applyUF(c.s, "strings.TrimRight", []Value{a, cut}, "String", "string")))
+		return nil, false
+	}
 	I["strings.TrimLeft"] = func(c *icall) ([]*State, bool) {
 		a, cut := c.str(0), c.str(1)
 		if a.K == SLit && cut.K == SLit {
